@@ -411,7 +411,7 @@ class PanicAnalysis:
             return None
         for rule in (self._supp_rule, self._select_rule, self._peer_rule, self._exh_rule, self._ser_rule,
                      self._const_rule, self._guard_rule, self._bound_rule, self._env_rule, self._prologue_rule,
-                     self._round_rule, self._auth_rule):
+                     self._round_rule, self._leader_rule, self._auth_rule):
             if rule in (self._select_rule, self._peer_rule):
                 r = rule(s, actor_status)
             else:
@@ -1299,6 +1299,21 @@ class PanicAnalysis:
         return ("AUTH", "round + 1 where the round belongs to a verified/assembled certificate, a block that passed verify, or Core's own "
                         "pacemaker state: a certified round needs f+1 honest signers who only sign their current round, and an honest "
                         "round grows by one per certificate - 2^64 is unreachable [valid while %s pass]" % ", ".join(self.ROUND_REQUIRES))
+
+    # ---- AUTH(leader): the index / modulo inside the leader elector, whose exact shape C09.LE1 decides
+    def _leader_rule(self, s):
+        from .props.c09 import GET_LEADER
+        if s.root != GET_LEADER:
+            return None
+        if s.kind == "index" or (s.kind == "assert" and s.what in ("BoundsCheck", "RemainderByZero")):
+            req = ["C09.LE1"] + (["C15.ENV-OWN-KEY"] if s.what == "RemainderByZero" else [])
+            failed = [r for r in req if not self.auth_status.get(r, False)]
+            if failed:
+                s.detail = "leader index is authenticated by %s, but %s do not pass on this tree" % (req, failed)
+                return None
+            return ("AUTH", "C09.LE1 decides that the result is keys[(round [+c]) mod n] with n = number of authorities = keys.len(); the "
+                            "committee contains the node's own key (start-up expect), so n >= 1 [valid while %s pass]" % ", ".join(req))
+        return None
 
     # ---- AUTH: operand authenticated by another property's rule (table in rules/auth.toml)
     def _auth_rule(self, s):
